@@ -82,8 +82,11 @@ func runReload(sc Scenario) (res vh.Result) {
 		return res
 	}
 	_, res.Classes = classify(sc, o)
-	valid, failed, during, queued := false, false, false, false
+	valid, failed, during, queued, takeover := false, false, false, false, false
 	for _, r := range o.Reloads {
+		if r.QueuesWithFiles > 0 {
+			takeover = true
+		}
 		if r.Variant == "valid" {
 			valid = true
 		} else {
@@ -111,6 +114,7 @@ func runReload(sc Scenario) (res vh.Result) {
 	add(failed, "rejected-reload")
 	add(during, "reload-after-connections-opened")
 	add(queued, "chunks-queued-at-a-stop")
+	add(takeover, "queued-chunks-to-take-over-at-a-successful-reload")
 	add(len(o.Reloads) > 1, "several-reloads")
 	res.NonTrivial = len(o.Reloads) > 0 && during
 	agentErrors := vh.Logs.Take()
@@ -127,6 +131,6 @@ func runReload(sc Scenario) (res vh.Result) {
 func TestE2EReload(t *testing.T) {
 	vh.Run(t, vh.Spec[Scenario]{
 		Name: "e2e-reload", Gen: genReloadScenario, Run: runReload, Quick: 10, Thorough: 250, Journal: true, ShrinkSeconds: 30,
-		Rule: "the real agent started through run.Reloader (TCP listener, ReloadableOrchestrator, pipelines, hybrid buffers, Forward clients; scaled defs) with 1-2 generations of 1-5 staggered client connections x 1-30 stamped records with pauses, faulty or healthy upstreams, and 1-3 reloads per generation at generated moments of the traffic (hook H4 = the SIGHUP handler's reload()) with a valid (extra transform + schema field), an invalid or an incompatible new configuration file; oracle = C01's no-loss/no-alteration oracle over the whole scenario, every reload counted once under the right status, no effect of a rejected reload (no record carries the new transform's field, tags unchanged), the new configuration in effect for every connection opened after a successful reload returned; non-trivial = at least one reload after a connection was opened",
+		Rule: "the real agent started through run.Reloader (TCP listener, ReloadableOrchestrator, pipelines, hybrid buffers, Forward clients; scaled defs) with 1-2 generations of 1-5 staggered client connections x 1-30 stamped records with pauses, faulty or healthy upstreams, and 1-3 reloads per generation at generated moments of the traffic (hook H4 = the SIGHUP handler's reload()) with a valid (extra transform + schema field), an invalid or an incompatible new configuration file; oracle = C01's no-loss/no-alteration oracle over the whole scenario, every reload counted once under the right status, no effect of a rejected reload (no record carries the new transform's field, tags unchanged), the new configuration in effect for every connection opened after a successful reload returned, and every queue directory that holds chunk files right after a successful reload has a pipeline in the new pipeline set (its buffer gauges exist); non-trivial = at least one reload after a connection was opened",
 	})
 }
